@@ -344,6 +344,19 @@ pub(crate) async fn handle_actor_stopping_event(
   error_opt: Option<&ZmqError>,
 ) {
   let core_handle = core_arc.handle;
+
+  // The endpoint is keyed by the URI of the established connection, which is not always the
+  // address the application connected to (an ipc session is "ipc://ipc-fd-N"): remember that
+  // address before the entry is removed - it is what a reconnect has to dial.
+  let reconnect_target: Option<String> = endpoint_uri_opt.map(|uri| {
+    core_arc
+      .core_state
+      .read()
+      .endpoints
+      .get(uri)
+      .and_then(|info| info.target_endpoint_uri.clone())
+      .unwrap_or_else(|| uri.to_string())
+  });
   
   // First, perform the resource cleanup regardless of the shutdown phase.
   // This removes the endpoint from the main map.
@@ -374,9 +387,7 @@ pub(crate) async fn handle_actor_stopping_event(
       );
       // Only reconnect if the cleanup indicated it was an outbound session that failed.
       if should_consider_reconnect {
-        if let Some(uri_str) = endpoint_uri_opt {
-          let target_uri = uri_str.to_string();
-
+        if let Some(target_uri) = reconnect_target {
           // Calculate delay and update state
           let mut state = core_arc.core_state.write();
           let options = state.options.clone();
